@@ -232,6 +232,20 @@ func ZzC20Resend() {
 	if !reject {
 		verifrt.Assert(pc >= 0 && pt < pc, "c20-reoffered-parents-first")
 		verifrt.Assert(w.known(th) && w.known(ch), "c20-resend-keeps-accepted")
+		// "after EVERY (re)synchronisation": still unconfirmed at the next
+		// one, both are offered again
+		w.chain.sent = nil
+		w.w.resendUnminedTxs()
+		pt, pc = -1, -1
+		for k, m := range w.chain.sent {
+			if m.TxHash() == th {
+				pt = k
+			}
+			if m.TxHash() == ch {
+				pc = k
+			}
+		}
+		verifrt.Assert(pt >= 0 && pc >= 0 && pt < pc, "c20-reoffered-again-at-the-next-resynchronisation")
 		verifrt.Reach("resent")
 	} else {
 		verifrt.Assert(!w.known(th) && !w.known(ch), "c20-rejected-on-resend-forgotten-with-descendants")
